@@ -33,7 +33,10 @@ func c01Run(c c01Case) Verdict {
 	if !ok {
 		return Verdict{Inconclusive: "reference found no end marker (generator bug)"}
 	}
-	cfg := harness.Config{LMTP: c.Mode != 0}
+	// The server's line length limit also applies to lines of the message
+	// (the stock suite expects that); C01 is about the reader, so it runs
+	// with the limit off and quantifies over all streams.
+	cfg := harness.Config{LMTP: c.Mode != 0, MaxLineLength: -1}
 	if c.Limit {
 		cfg.MaxMessageBytes = int64(len(want)) + 1
 	}
